@@ -19,12 +19,51 @@ def run(chk):
     chk.count("exhaustive_histories", len(ex))
     corr, _, _ = emucheck.run_cases(chk, build, oracle, tables, ex, types={2, 4, 6}, deciders=(emucheck.d_thread,), label="exhaustive")
     corr_all += corr
+    # one mistake: every complete legal history of one thread up to 7 events, with one event duplicated or replaced
+    # by another one at every position (the rest of the history goes on as if nothing had happened)
+    from vf.emucore import FSM, Scenario, i32
+    legal = []
+
+    def walk(state, hist):
+        if state == "Dead" and hist:
+            legal.append(hist)
+        if len(hist) >= 7:
+            return
+        for (a, v), b in FSM.items():
+            if a == state and not (state == "Dead"):
+                walk(b, hist + v)
+    walk("Unknown", "")
+    mistakes = set()
+    for h in legal:
+        for i in range(len(h)):
+            mistakes.add(h[:i + 1] + h[i] + h[i + 1:])
+            for v in "xeprcw":
+                if v != h[i]:
+                    mistakes.add(h[:i] + v + h[i + 1:])
+    mistakes = sorted(m for m in mistakes if len(m) > (4 if chk.tier == "quick" else 6))     # shorter ones are in the exhaustive part
+    if chk.tier == "quick":
+        mistakes = rng.fork("mist").shuffle(mistakes)[:1500]
+    ms = []
+    for m in mistakes:
+        s1 = Scenario()
+        for mm in tables["models"]:
+            s1.versions[mm["name"]] = mm["version"]
+        s1.looms["la"] = [(0, 0)]
+        s1.threads.append({"loom": "la", "pid": 10, "tid": 101})
+        clk = 10
+        for v in m:
+            clk += 3
+            s1.events.append((0, clk, "OH" + v, (i32(0) + i32(101) + i32(0)) if v == "x" else b""))
+        ms.append(s1)
+    chk.count("one_mistake_histories", len(ms))
+    corr, _, _ = emucheck.run_cases(chk, build, oracle, tables, ms, types={2, 4, 6}, deciders=(emucheck.d_thread,), label="one-mistake")
+    corr_all += corr
     # random, longer, several looms/CPUs, OH only
     rnd = []
     for i in range(chk.budget(400, 5000)):
         r = rng.fork("r%d" % i)
         s = gen_hist.base_scenario(r, tables)
-        gen_hist.thread_history(r, s, r.range(1, 60), with_affinity=False)
+        gen_hist.thread_history(r, s, r.range(1, 60), with_affinity=False, spice=True)
         rnd.append(s)
     corr, real, model = emucheck.run_cases(chk, build, oracle, tables, rnd, types={2, 4, 6}, deciders=(emucheck.d_thread,), label="random")
     corr_all += corr
